@@ -123,3 +123,42 @@ Example c27_prefix_race_witness :
   o_buf (run0 (init0 match_dtls [[20; 1]; [20; 2]]%N) [0; 1; 0; 0; 1; 2])
   = [[20; 2]; [20; 1]]%N.
 Proof. exact legacy_race. Qed.
+
+(* ---- second tie to the source: the translated match functions ----
+   Gen/GoMux.v is regenerated from internal/mux/muxfunc.go by tools/go2coq
+   before every run of this check (byte strings as list N, buf[k] checked, a
+   function that indexes returns result).  For ALL byte strings each generated
+   function IS the model's; for the three the model wrote as total functions
+   the statement also says that the Go function never panics. *)
+From Verif Require Proofs.GenMux Gen.GoMux.
+Theorem c27_generated_model_agrees_MatchRange : forall lo hi buf,
+  GoMux.MatchRange lo hi buf = Ok (match_range lo hi buf).
+Proof. exact GenMux.gen_match_range_agrees. Qed.
+Print Assumptions c27_generated_model_agrees_MatchRange.
+
+Theorem c27_generated_model_agrees_MatchDTLS : forall buf,
+  GoMux.MatchDTLS buf = Ok (match_dtls buf).
+Proof. exact GenMux.gen_match_dtls_agrees. Qed.
+Print Assumptions c27_generated_model_agrees_MatchDTLS.
+
+Theorem c27_generated_model_agrees_MatchSRTPOrSRTCP : forall buf,
+  GoMux.MatchSRTPOrSRTCP buf = Ok (match_srtp_or_srtcp buf).
+Proof. exact GenMux.gen_match_srtp_or_srtcp_agrees. Qed.
+Print Assumptions c27_generated_model_agrees_MatchSRTPOrSRTCP.
+
+Theorem c27_generated_model_agrees_isRTCP : forall buf, GoMux.isRTCP buf = is_rtcp buf.
+Proof. exact GenMux.gen_is_rtcp_agrees. Qed.
+Print Assumptions c27_generated_model_agrees_isRTCP.
+
+Theorem c27_generated_model_agrees_MatchSRTP : forall buf, GoMux.MatchSRTP buf = match_srtp buf.
+Proof. exact GenMux.gen_match_srtp_agrees. Qed.
+Print Assumptions c27_generated_model_agrees_MatchSRTP.
+
+Theorem c27_generated_model_agrees_MatchSRTCP : forall buf, GoMux.MatchSRTCP buf = match_srtcp buf.
+Proof. exact GenMux.gen_match_srtcp_agrees. Qed.
+Print Assumptions c27_generated_model_agrees_MatchSRTCP.
+
+Example c27_generated_nontrivial :
+  GoMux.MatchSRTCP [128; 200; 0; 0]%N = Ok true /\ GoMux.MatchSRTP [128; 200; 0; 0]%N = Ok false /\
+  GoMux.MatchSRTP [128; 200]%N = Ok true /\ GoMux.MatchDTLS [] = Ok false.
+Proof. repeat split; reflexivity. Qed.
